@@ -8,6 +8,7 @@
   created" is therefore: the step is not delegated, its callback list is empty and `chans` is unchanged.
 -/
 import PV.Model.AuthServerLemmas
+import PV.Model.AuthServerGrant
 namespace PV.Props.C15
 open PV PV.Wire PV.AuthServer PV.Generated.AuthTables
 
@@ -229,6 +230,62 @@ theorem gate_holds_at_every_point (ms : List Msg) (m : Msg) (h1 : 80 ≤ m.ptype
     rw [step_inactive sc sid s m.ptype m.payload m.env ha]
     exact ⟨rfl, rfl, rfl, by simp [St.isAuthenticated, ha], Or.inl rfl⟩
 
+/-! ## the gate opens only on the application's AUTH_SUCCESSFUL -/
+
+/-- a partially successful verdict (multi-factor servers) is answered USERAUTH_FAILURE with the partial-success
+flag and leaves the connection unauthenticated - for every method, since all of them end in `_send_auth_result` -/
+theorem partial_verdict_reply (s : St) (e : Env) (u : Option Bytes) (h : s.failCount < 10) :
+    sendAuthResult s e u AUTH_PARTIALLY_SUCCESSFUL =
+      (s, { cbs := [Call.mk (.allowed u) none], sent := [msgFailure e.allowed true] }) := by
+  have : ¬ s.failCount ≥ FAIL_CAP := by unfold FAIL_CAP; omega
+  simp [sendAuthResult, AUTH_PARTIALLY_SUCCESSFUL, AUTH_SUCCESSFUL, this]
+
+/-- **Verdicts are passed through.** Whatever the method (password, publickey, keyboard-interactive, info
+response, GSS-API, none): a step in which no credential callback returned AUTH_SUCCESSFUL - partial success and
+failure alike - does not authenticate, so the gate of `unauthenticated_conn_message_refused` stays shut. -/
+theorem no_approval_keeps_gate_shut (s : St) (p : Nat) (b : Bytes) (e : Env) (h0 : s.authenticated = false)
+    (hno : ∀ c ∈ (step sc sid s p b e).2.cbs, ¬ c.approves) :
+    (step sc sid s p b e).1.authenticated = false ∧ msgSuccess ∉ (step sc sid s p b e).2.sent := by
+  have hns : msgSuccess ∉ (step sc sid s p b e).2.sent := by
+    intro h
+    by_cases ha : s.active = true
+    · rw [step_active sc sid s p b e ha] at h hno
+      obtain ⟨c, hc, hap⟩ := perform_success _ e _ (step_dec sc sid s p b e).2.2.2.2.2.2.1
+        (decideAct_grant sc sid s p b e) h
+      exact hno c hc hap
+    · simp only [Bool.not_eq_true] at ha
+      rw [step_inactive sc sid s p b e ha] at h; simp at h
+  refine ⟨?_, hns⟩
+  cases hx : (step sc sid s p b e).1.authenticated
+  · rfl
+  · exfalso
+    apply hns
+    by_cases ha : s.active = true
+    · rw [step_active sc sid s p b e ha] at hx ⊢
+      have d := step_dec sc sid s p b e
+      exact perform_authenticated _ e _ (by rw [d.2.2.1]; exact h0) hx
+    · simp only [Bool.not_eq_true] at ha
+      rw [step_inactive sc sid s p b e ha] at hx; rw [h0] at hx; cases hx
+
+/-- over every history from a fresh connection: as long as no callback has approved, nobody is authenticated and
+no channel exists -/
+theorem no_approval_no_access (ms : List Msg)
+    (hno : ∀ o ∈ (run sc sid init ms).2, ∀ c ∈ o.cbs, ¬ c.approves) :
+    (run sc sid init ms).1.authenticated = false ∧ (run sc sid init ms).1.chans = 0 := by
+  have ha : (run sc sid init ms).1.authenticated = false := by
+    suffices h : ∀ s : St, s.authenticated = false → (∀ o ∈ (run sc sid s ms).2, ∀ c ∈ o.cbs, ¬ c.approves) →
+        (run sc sid s ms).1.authenticated = false from h init rfl hno
+    clear hno
+    induction ms with
+    | nil => intro s h _; simpa [run] using h
+    | cons m ms ih =>
+      intro s h0 hno
+      simp only [run] at hno ⊢
+      have h1 := (no_approval_keeps_gate_shut sc sid s m.ptype m.payload m.env h0
+        (fun c hc => hno _ List.mem_cons_self c hc)).1
+      exact ih _ h1 (fun o ho => hno o (List.mem_cons_of_mem _ ho))
+  exact ⟨ha, no_channel_before_authentication sc sid ms ha⟩
+
 /-! ## non-vacuity -/
 
 private def toySc : SigScheme := { verify := fun k m s => s == k ++ m }
@@ -242,6 +299,12 @@ example : (step toySc [] init 90 chanOpen {}).2.sent = [msgOpenFailure 7] ∧
 example : let s := (run toySc [] init [⟨50, reqAlice, {}⟩, ⟨50, reqAlice, { rPassword := 1 }⟩]).1
     s.failCount = 1 ∧ s.isAuthenticated = false ∧ (step toySc [] s 80 [] {}).2.sent = [msgRequestFailure] := by
   decide +kernel
+-- a validly signed publickey request that the application accepts as ONE factor only: partial, gate shut
+example : let e : Env := { rPubkey := 1, keyCanon := some [7] }
+    let req := encStr (str "alice") ++ encStr sSshConnection ++ encStr sPublickey ++ [1] ++ encStr (str "ssh-ed25519") ++
+      encStr [7] ++ encStr ([7] ++ sessionBlob [] (str "alice") sSshConnection (str "ssh-ed25519") [7])
+    (step toySc [] init 50 req e).2.sent = [msgFailure [] true] ∧
+    (step toySc [] (step toySc [] init 50 req e).1 90 chanOpen {}).2.sent = [msgOpenFailure 7] := by decide +kernel
 -- the hypotheses are not contradictory: once authenticated the same message is handed to the connection layer
 example : let s := (run toySc [] init [⟨50, reqAlice, { rPassword := 0 }⟩]).1
     s.isAuthenticated = true ∧ (step toySc [] s 90 chanOpen { delegNewChans := 1 }).2.delegated = true ∧
